@@ -35,9 +35,7 @@ theorem newdataI_eq (s : Sline) (h : SlineOK s) (d : List Byte) (n : Int) (hn : 
     rw [← hk]
     split <;> split <;> split <;> omega
   simp only [hI, Int.toNat_natCast]
-  have hneg : decide (s.cap < s.len + 1) = false := by simp; omega
-  rw [mcpy_prefix _ _ d n.toNat k hkm hm, hneg]
-  simp
+  rw [mcpy_prefix _ _ d n.toNat k hkm hm]
 
 /-! ### histories that also use the raw accessors -/
 
